@@ -139,12 +139,11 @@ func flattenType(t types.Type, prefix string) []Leaf {
 			// obj: reference of the struct object / element storage viewed;
 			// mt: message-type tag (index in msgsTypes, 0xFFFF none); fld: field
 			// index (sindex) or -1 for a whole message; idx: element index or -1
-			return []Leaf{
-				{Path: joinPath(prefix, "#rv.obj"), Sort: sBV64, Kind: lkOpaque, GoT: t},
-				{Path: joinPath(prefix, "#rv.mt"), Sort: sBV64, Kind: lkOpaque, GoT: t},
-				{Path: joinPath(prefix, "#rv.fld"), Sort: sBV64, Kind: lkOpaque, GoT: t},
-				{Path: joinPath(prefix, "#rv.idx"), Sort: sBV64, Kind: lkOpaque, GoT: t},
+			var out []Leaf
+			for _, n := range []string{"obj", "mt", "fld", "idx", "cls", "wid", "ecls", "ewid", "ttag"} {
+				out = append(out, Leaf{Path: joinPath(prefix, "#rv."+n), Sort: sBV64, Kind: lkOpaque, GoT: t})
 			}
+			return out
 		case "time.Time":
 			// sec: seconds since the FIT-independent absolute origin (unix), signed;
 			// ns: nanoseconds 0..999999999; zoff: zone offset seconds; zid: zone identity
